@@ -349,6 +349,12 @@ class IntronsLeg(object):
                     if not hits:
                         return Failure("an intron %s:%d-%d stored with update() is not returned by all_features(limit=its own interval, completely_within=True)"
                                        % (f.seqid, f.start, f.end), sig={"kind": "stored-intron-not-found"})
+                import gffutils.bins as _b
+
+                for r_ in db.execute("SELECT id, start, end, bin FROM features WHERE featuretype = 'intron'"):
+                    if r_[3] != _b.bins(r_[1], r_[2]):
+                        return Failure("stored intron %r %d..%d has bin %r, bins() gives %r" % (r_[0], r_[1], r_[2], r_[3], _b.bins(r_[1], r_[2])),
+                                       sig={"kind": "stored-intron-bin"})
                 db.delete([x.id for x in db.features_of_type("intron")], make_backup=False)
         # the same call again after an exon was deleted through the same handle reflects the new exon set
         victim = None
